@@ -103,6 +103,24 @@ class AloneSuite(PairedSuite):
             a = base(spec, n, rh, evs, lt + 3 + iv * (nrows * n + nrows // 2) + Fraction(1, 3000), origin=c)
             a.update({"name": "Wheatley", "instance": 9, "look_to_time": fstr(lt)})
             yield {"a": a, "oracle": {"n": n, "peal": 180, "gap": 1.0, "look_to": fstr(lt)}}
+        for i in range(16 if tier == "quick" else 160):
+            # server mode: the peal speed is not an option but a SETTING, and Ringing Room sends it before anything has
+            # been rung (also: again between two touches)
+            n = rng.choice([4, 6, 8, 12])
+            spec = {"kind": "plain_hunt", "stage": n, "custom": None}
+            v = rng.choice([150, 165, 200, 215, 240])
+            evs = [ev(0, "global", [True] * n), ev(Fraction(11, 1000), "user_entered", 1, "Wheatley")]
+            for b in range(1, n + 1):
+                evs.append(ev(Fraction(12, 1000) + Fraction(b, 100000), "assign", b, 1))
+            evs.append(ev(Fraction(71, 1000), "setting", [["peal_speed", rng.choice([v, str(v)])]]))
+            look_to = Fraction(rng.randint(15, 60), 100) + Fraction(1, 1000)
+            evs.append(ev(look_to, "call", "Look to"))
+            iv = blow_interval(v, n)
+            nrows = 6
+            rh = {"kind": "wait", "inertia": 1.0, "peal_speed": 180, "gap": 1.0, "max": 15}
+            a = base(spec, n, rh, evs, look_to + 3 + iv * (nrows * n + nrows // 2) + Fraction(1, 3000))
+            a.update({"name": "Wheatley", "instance": 9})
+            yield {"a": a, "oracle": {"n": n, "peal": v, "gap": 1.0, "look_to": fstr(look_to)}}
 
     def second_touch(self, rng):
         n = rng.choice([5, 6, 8])
@@ -154,6 +172,23 @@ class AloneSuite(PairedSuite):
             if abs(t - want) > TOL:
                 return (f"row {row} place {place}: struck at look-to+{float(t - t0):.6f}s, the formula gives "
                         f"look-to+{float(want - t0):.6f}s")
+        return None
+
+
+    def oracle_C15(self, case, out):
+        """Wheatley rings every bell: its first strike comes exactly 3 s after Look to - also when Look to was called
+        before the process existed (--look-to-time)."""
+        o = out["a"]
+        if "trace" not in o or case["oracle"].get("after"):
+            return None
+        ws = wheatley_strikes(o)
+        t0 = Fraction(case["oracle"]["look_to"])
+        n = case["oracle"]["n"]
+        iv = blow_interval(case["oracle"]["peal"], n)
+        if iv <= Fraction(11, 1000):
+            return None
+        if ws and ((ws[0][0], ws[0][1]) != (0, 0) or abs(ws[0][3] - (t0 + 3)) > TOL):
+            return f"Wheatley leads: its first strike came {float(ws[0][3] - t0):.4f}s after Look to, not 3 s"
         return None
 
 
@@ -270,6 +305,8 @@ def line_session(rng, *, kind, inertia, ratio=1, offset=0, human_leads=None, n=N
     rows = probe_rows(spec, n, nrows)
     k = n_humans or rng.randint(max(1, -(-n // 3)), n - 1)
     humans = set(rng.sample(range(1, n + 1), k))
+    if human_leads is True and n_humans and n_humans > 1:
+        humans = set(rng.sample(range(2, n + 1), k - 1)) | {1}        # exactly n_humans, the treble among them
     if human_leads is True:
         humans.add(1)
     elif human_leads is False:
@@ -563,17 +600,38 @@ class HoldUpSuite(PairedSuite):
     def scenarios(self, rng, tier):
         for i in range(80 if tier == "quick" else 800):
             # regression inert, as the property says: also during the first row (initial inertia 1)
-            a, orc = line_session(rng, kind="wait", inertia=1.0, initial_inertia=1.0, human_leads=False, nrows=7,
-                                  early_ms=5)
+            lead_row1 = i % 5 == 4
+            if lead_row1:
+                # the configuration Wheatley really runs with (inertia 1, first row free): a human leads the first
+                # BACKSTROKE row (bell 2 in plain hunt) and is a little late exactly there - the first row is over, so
+                # the regression must already be inert
+                # (exactly three human bells: the fourth datapoint - the first that allows a fit - is that backstroke lead)
+                a, orc = line_session(rng, kind="wait", inertia=1.0, initial_inertia=0.0, human_leads=True, nrows=7,
+                                      early_ms=5, n=rng.choice([6, 8]), n_humans=3)
+                # Wheatley's line is anchored on the leader's own (5 ms early) pull-off: every other human blow is put
+                # another 5 ms earlier, so that it stays clear of the end of Wheatley's own sleeps
+                first = min(Fraction(t) for (_r, _p, _b, t) in orc["human_blows"])
+                orc = dict(orc, early_ms=5,     # (5 ms relative to the line as anchored by the leader's early pull-off)
+                           human_blows=[[r, p, b, t if Fraction(t) == first else fstr(Fraction(t) - Fraction(5, 1000))]
+                                        for (r, p, b, t) in orc["human_blows"]])
+                a = copy.deepcopy(a)
+                a["events"] = sorted_events([[t if (e[0] != "ring" or Fraction(t) == first) else fstr(Fraction(t) - Fraction(5, 1000)), e]
+                                             for t, e in a["events"]])
+            else:
+                a, orc = line_session(rng, kind="wait", inertia=1.0, initial_inertia=1.0, human_leads=False, nrows=7,
+                                      early_ms=5)
             iv, n = Fraction(orc["iv"]), orc["n"]
             hb = orc["human_blows"]
             j = rng.randrange(len(hb) // 4, 3 * len(hb) // 4)
             holdups = [(j, Fraction(rng.choice([3, 13, 47, 250, 1230, 3001, 11003]), 1000) + Fraction(1, 7919))]
-            if rng.random() < 0.3:
+            if lead_row1:
+                j = next(k for k, x in enumerate(hb) if (x[0], x[1]) == (1, 0))
+                holdups = [(j, Fraction(rng.choice([47, 153, 250]), 1000) + Fraction(1, 7919))]
+            if rng.random() < 0.3 and not lead_row1:
                 holdups.append((min(len(hb) - 2, j + rng.randint(2, 6)), Fraction(rng.choice([17, 333]), 1000) + Fraction(1, 7907)))
-            two = rng.random() < 0.4
+            two = rng.random() < 0.4 and not lead_row1
             speed = None
-            if not two and rng.random() < 0.5:
+            if not two and not lead_row1 and rng.random() < 0.5:
                 holdups = [(jj, d if d > Fraction(1, 5) else d + Fraction(rng.choice([250, 1230, 3001]), 1000)) for jj, d in holdups]
                 # server mode: after the last hold-up somebody changes the peal speed; from then on the (punctual)
                 # humans ring at the new speed.  In the held-up session all of that simply happens D later.
@@ -679,7 +737,7 @@ class HoldUpSuite(PairedSuite):
             # up by D - 5 ms, rounded up to a whole number of 10 ms polling steps)
             before = [dd for ((hr, hp), dd) in hold if touch > 0 or (hr, hp) < (r, p)]
             k = len(before)
-            d = sum(before, Fraction(0)) - k * Fraction(5, 1000)
+            d = sum(before, Fraction(0)) - k * Fraction(case["oracle"].get("early_ms", 5), 1000)
             shift = t - xa[3]
             slack = Fraction(0)
             if case["oracle"].get("speed"):
